@@ -113,6 +113,30 @@ theorem C03_assign_reads_back (t : Ty) (h : t.WF) (i : Init) (hw : InitWT t i) (
     rw [walk_loc t.dict F (Ty.walkLaw t h) ⟨s.addr, o1.bytes⟩ (sizeSpec t i) ha' hmin hvu hz' ⟨s.addr, o1.bytes ++ s.bytes.drop v⟩ rfl hlen' hb]
     exact hc hres
 
+/-- … and for a variant that ends in an unsized field: tag and sized fields as above (the last field's content is
+`C03_emplace_reads_back`). -/
+theorem C03_enum_unsized_variant_image (tag : LenTy) (vs : List (List Ty)) (h : (Ty.uenum tag vs).WF)
+    (idx : Nat) (vals : List Bytes) (li : Init) (pre : List Ty) (lt : Ty) (hvar : vs.getD idx [] = pre ++ [lt])
+    (hw : InitWT (.uenum tag vs) (.uenum idx vals (some li))) (s : Slice)
+    (hal : s.addr % (Ty.uenum tag vs).dict.align = 0) (hlen : (Ty.uenum tag vs).dict.minSize ≤ s.len)
+    (o : EO) (ho : emplaceU (.uenum tag vs) (.uenum idx vals (some li)) s = .ok o) (hres : o.res = .ok ()) :
+    o.bytes.take tag.size = encLenTy tag idx ∧
+    ∀ (i : Nat) (d : Dict) (v : Bytes) (P : Nat), (dictL pre)[i]? = some d → vals[i]? = some v →
+      (posList (dictL pre) 0)[i]? = some P →
+      (o.bytes.drop (ceilMul tag.size (max tag.align (alignLL (dictLL vs))) + P)).take d.ssize = v := by
+  simp only [Ty.WF] at h
+  simp only [InitWT] at hw
+  obtain ⟨hidx, _, pre', lt', hvar', hv, hwl⟩ := hw
+  have heq : pre' ++ [lt'] = pre ++ [lt] := by rw [← hvar', hvar]
+  obtain ⟨rfl, rfl⟩ : pre' = pre ∧ lt' = lt := by
+    have := List.append_inj' heq rfl
+    exact ⟨this.1, by simpa using this.2⟩
+  have hwf := wfLL_getD vs idx h.2.1
+  have hbl := butLastLL_getD vs idx h.2.2
+  rw [hvar] at hwf hbl
+  exact uenum_some_image tag h.1 vs (lawLL vs h.2.1) idx hidx vals pre' lt' hvar
+    (sizedL_allSized _ (butLastL_concat pre' lt' hbl)) hv li (emplaceU_ok li lt' (wfL_concat pre' lt' hwf).2 hwl) s hal hlen o ho hres
+
 /-- non-vacuity: `S1 { a: u32, b: FlatVec<u8,u16> }` with three bytes in `b` occupies 12 bytes (4 + 2 + 3, padded to 4) -/
 example : sizeSpec S1 (.ustruct [[1,0,0,0]] (.vecArr [[7],[8],[9]])) = 12 := by decide
 end FV.Props
